@@ -323,6 +323,11 @@ pub struct SimPair {
     /// dup_acks[link]: (ordinal of the ack frame put on that link, extra delay in us): that ack
     /// frame is delivered a second time, `delay` after the original
     pub dup_acks: [Vec<(u32, u32)>; 2],
+    /// ext_acks[e]: (ordinal of the uncorrupted ack frame handed to endpoint e, selector bits): that ack is handed over
+    /// with additional claims for frames the endpoint has ALREADY seen acknowledged (see `extend_ack`)
+    pub ext_acks: [Vec<(u32, u32)>; 2],
+    pub acks_handled: [u32; 2],
+    pub acks_extended: u32,
     ack_count: [u32; 2],
 }
 
@@ -353,6 +358,9 @@ impl SimPair {
             next_idx: [0, 0],
             blackout: [(0, 0), (0, 0)],
             dup_acks: [Vec::new(), Vec::new()],
+            ext_acks: [Vec::new(), Vec::new()],
+            acks_handled: [0, 0],
+            acks_extended: 0,
             ack_count: [0, 0],
         }
     }
@@ -483,10 +491,86 @@ impl SimPair {
             if top.arrive_us > self.now_us {
                 break;
             }
-            let f = self.in_flight[e].pop().unwrap();
+            let mut f = self.in_flight[e].pop().unwrap();
+            if !f.corrupted && f.bytes.first() == Some(&12) && !self.ext_acks[e].is_empty() {
+                let n = self.acks_handled[e];
+                self.acks_handled[e] += 1;
+                if let Some(sel) = self.ext_acks[e].iter().find(|p| p.0 == n || p.0 == 0xFFFF).map(|p| p.1.rotate_left(n)) {
+                    if let Some(b) = self.extend_ack(e, &f.bytes, sel) {
+                        f.bytes = b;
+                        self.acks_extended += 1;
+                    }
+                }
+            }
             let accepted = self.handle_bytes(e, &f.bytes);
             let evs = self.next_ev();
             self.trace.handled[e].push(HandledRec { seq: evs, t_us: self.now_us, epoch: self.epoch[e], wire_idx: f.wire_idx, corrupted: f.corrupted, accepted });
+        }
+    }
+
+    /// A genuine ack frame about to be handed to endpoint `e`, with bits added to its groups for frames which `e`
+    /// has already seen acknowledged: a repeated acknowledgement bundled with fresh ones. Only frames still in
+    /// e's sent-frame log qualify, the whole (possibly longer) span must be in the log, and no frame the span gains
+    /// may carry the rate-limited mark - under these preconditions the sender code provably treats the extended
+    /// group like the original (same validation outcome, the added claims are skipped as already acknowledged).
+    fn extend_ack(&self, e: usize, bytes: &[u8], sel: u32) -> Option<Box<[u8]>> {
+        use uflow::verif::Serialize as _;
+        let Some(Frame::AckFrame(mut a)) = Frame::read(bytes) else { return None };
+        let mut changed = false;
+        for (gi, g) in a.frame_acks.iter_mut().enumerate() {
+            if g.bitfield == 0 {
+                continue;
+            }
+            let size = 32 - g.bitfield.leading_zeros();
+            // the original span must be entirely in the log (else both versions are rejected alike; nothing to learn)
+            if !(0..size).all(|j| self.hc[e].verif_sent_frame(g.base_id.wrapping_add(j)).is_some()) {
+                continue;
+            }
+            let mut bits = g.bitfield;
+            let mut nonce = g.nonce;
+            // clear positions inside the span
+            for j in 0..size {
+                if bits & (1 << j) == 0 {
+                    if let Some((true, n, _)) = self.hc[e].verif_sent_frame(g.base_id.wrapping_add(j)) {
+                        if (sel >> ((j + gi as u32) % 32)) & 1 == 1 {
+                            bits |= 1 << j;
+                            nonce ^= n;
+                        }
+                    }
+                }
+            }
+            // positions beyond the span
+            let mut pending_nonce = false;
+            let mut pending_bits = 0u32;
+            for j in size..32 {
+                match self.hc[e].verif_sent_frame(g.base_id.wrapping_add(j)) {
+                    Some((acked, n, false)) => {
+                        if acked && (sel >> ((j + 7 * gi as u32) % 32)) & 1 == 1 {
+                            pending_bits |= 1 << j;
+                            pending_nonce ^= n;
+                            // commit everything up to here
+                            bits |= pending_bits;
+                            nonce ^= pending_nonce;
+                            pending_bits = 0;
+                            pending_nonce = false;
+                        }
+                    }
+                    _ => break,
+                }
+            }
+            if bits != g.bitfield {
+                if std::env::var_os("VERIF_DEBUG").is_some() {
+                    eprintln!("t={} ep{} extend group base={} bits {:#b} -> {:#b} nonce {} -> {}; states {:?}", self.now_us, e, g.base_id, g.bitfield, bits, g.nonce, nonce, (0..8).map(|j| self.hc[e].verif_sent_frame(g.base_id.wrapping_add(j))).collect::<Vec<_>>());
+                }
+                g.bitfield = bits;
+                g.nonce = nonce;
+                changed = true;
+            }
+        }
+        if changed {
+            Some(Frame::AckFrame(a).write())
+        } else {
+            None
         }
     }
 
